@@ -59,7 +59,8 @@ def cubed(q_args, q_kw, cube_bits, nthr_choices=2):
 def pool_query(name, ops, maxthreads, K, racy=True, timeout=3000, liveness=True, prefix_only=False, harness_defs=(), expect_reach=('owner finished', 'all threads finished'), prefix=None):
     ops = list(ops) + [0] * (4 - len(ops))
     ntask = max(1, sum(1 for o in ops if o == 1))
-    nthr = 1 + min(maxthreads, ntask)
+    # thread ids are never reused by the scheduler: after a stop() a later start() creates a fresh worker
+    nthr = 1 + (ntask if 3 in ops[:-1] else min(maxthreads, ntask))
     cdefs = ['VF_K=%d' % K, 'VF_NTHR=%d' % nthr, 'VF_PRESTART=1', 'VF_UNDEF_PTR_NULL=1'] + (['VF_LIVENESS=1'] if liveness else []) + (['VF_PREFIX_ONLY=1'] if prefix_only else []) + (['VF_PREFIX=' + ','.join(str(x) for x in prefix)] if prefix else [])
     q = Query(name, [H], ['OP%d=%d' % (i, o) for i, o in enumerate(ops)] + ['NTASK=%d' % ntask, 'MAXTHREADS=%d' % maxthreads, 'VF_LIST_CAP=3', 'VF_SPLIT_ENTRY=1'] + list(harness_defs), stl='model', rt=RT,
               cbmc_defines=cdefs, unwind=5, unwindset=['vf_run.0:%d' % (K + 2)], timeout=timeout, mem_gb=20,
